@@ -553,7 +553,9 @@ Convertible(p) ==
      IN c[1] /\ \A j \in 1..Len(p.rets) : ArgOK(p.rets[j], c[2])
 
 (* Python semantics of the program *)
-ArgVal(a, env) == CASE a.a = "var" -> env[a.n] [] a.a = "lit" -> Tok[a.tok].val [] a.a = "true" -> BoolV(TRUE)
+\* (after a Poison some assignments were skipped: an unassigned name reads as Err)
+Get(env, n) == IF n \in DOMAIN env THEN env[n] ELSE Err
+ArgVal(a, env) == CASE a.a = "var" -> Get(env, a.n) [] a.a = "lit" -> Tok[a.tok].val [] a.a = "true" -> BoolV(TRUE)
 \* a condition that is not BOOL / a trip count that is not INT64: the converted model is not loadable
 POISON == <<"#">>
 Poison(env) == (POISON :> Err) @@ env
@@ -561,7 +563,7 @@ RECURSIVE Exec(_, _), ExecLoop(_, _, _, _, _)
 ExecStmt(s, env) ==
   CASE s.s = "call" -> (s.out :> ApplyOp(s.op, [j \in 1..Len(s.args) |-> ArgVal(s.args[j], env)])) @@ env
     [] s.s = "const" -> (s.out :> Tok[s.tok].val) @@ env
-    [] s.s = "attrconst" -> (s.out :> env[ATTRN]) @@ env
+    [] s.s = "attrconst" -> (s.out :> Get(env, ATTRN)) @@ env
     [] s.s = "infix" -> LET a == [j \in 1..Len(s.args) |-> ArgVal(s.args[j], env)]
                         IN (s.out :> (IF s.negleft THEN FNeg(ApplyOp(s.op, <<FNeg(a[1]), a[2]>>))   \* -1.0 ** x = -(1.0 ** x)
                                       ELSE ApplyOp(s.op, a))) @@ env
@@ -569,11 +571,11 @@ ExecStmt(s, env) ==
     [] s.s = "pcopy" -> [n \in SeqSet(s.lhss) |-> ArgVal(s.rhss[CHOOSE j \in 1..Len(s.lhss) : s.lhss[j] = n], env)] @@ env
     [] s.s = "if" -> IF ArgVal(s.cond, env).k # "b" THEN Poison(env)
                      ELSE IF Truth(ArgVal(s.cond, env)) THEN Exec(s.th, env) ELSE Exec(s.el, env)
-    [] s.s = "loop" -> IF (s.bound.a # "none" /\ ArgVal(s.bound, env).k # "i") \/ (s.cond # NONE /\ env[s.cond].k # "b") THEN Poison(env)
+    [] s.s = "loop" -> IF (s.bound.a # "none" /\ ArgVal(s.bound, env).k # "i") \/ (s.cond # NONE /\ Get(env, s.cond).k # "b") THEN Poison(env)
                        ELSE ExecLoop(s, env, 0, IF s.bound.a = "none" THEN -1 ELSE ArgVal(s.bound, env).v, 12)   \* range() is evaluated once
 Exec(ss, env) == IF ss = <<>> THEN env ELSE Exec(Tail(ss), ExecStmt(Head(ss), env))
 ExecLoop(s, env, i, n, fuel) ==
-  IF fuel = 0 \/ (s.bound.a # "none" /\ i >= n) \/ (s.cond # NONE /\ ~Truth(env[s.cond])) THEN env
+  IF fuel = 0 \/ (s.bound.a # "none" /\ i >= n) \/ (s.cond # NONE /\ ~Truth(Get(env, s.cond))) THEN env
   \* a loop variable that the body assigns is, for the converter, a loop-carried variable that shadows the
   \* iteration number (the state variables are bound after the loop variable)
   ELSE ExecLoop(s, Exec(s.body, IF s.iter = NONE \/ s.iter \in Assigned(s.body) THEN env ELSE (s.iter :> IntV(i)) @@ env), i + 1, n, fuel - 1)
